@@ -210,6 +210,7 @@ type aggregate struct {
 	complete        bool
 	groupsDone      int
 	crashes         int
+	hangs           int
 	aborted         string
 }
 
@@ -371,12 +372,19 @@ func (r *runner) run(deadline time.Time) (*aggregate, error) {
 					live--
 					w.cmd.Process.Kill()
 					agg.crashes++
+					agg.hangs++
 					if g == w.group && i >= w.from {
 						record(&violRec{Sig: "crash|" + r.groups[g] + "|" + tagOf(w.hbPath) + "|hang", G: g, I: i, Detail: fmt.Sprintf("no progress for %ds", r.hangSecs), N: 1, Crash: true})
 					} else {
 						g, i = w.group, w.from-1
 					}
 					queue = append([]job{{g, i + 1}}, queue...)
+					if agg.hangs > 8 {
+						// every hang costs a full watchdog period: stop exploring, report what was found
+						agg.complete = false
+						agg.aborted = fmt.Sprintf("exploration stopped after %d hangs", agg.hangs)
+						queue = nil
+					}
 					if err := startW(); err != nil {
 						return nil, err
 					}
@@ -593,12 +601,24 @@ func CheckMain(id, tier string, seed int64) int {
 		}
 	}
 	flaky := 0
+	hangSigs := 0
+	var skippedHangs []string
 	for _, s := range sigs {
 		v := agg.viol[s]
 		_, isKnown := knownSet[s]
 		nconf := 5
 		if isKnown {
 			nconf = 1
+		}
+		if v.Crash && strings.HasSuffix(s, "|hang") && !isKnown {
+			// confirming a hang costs a full time limit per re-run: 2 re-runs, and at most 3 distinct hang
+			// signatures per run are confirmed and reported (the rest are counted in the evidence)
+			nconf = 2
+			hangSigs++
+			if hangSigs > 3 {
+				skippedHangs = append(skippedHangs, s)
+				continue
+			}
 		}
 		ok, desc, _ := r.confirm(v, nconf)
 		if v.Desc == nil {
@@ -644,6 +664,9 @@ func CheckMain(id, tier string, seed int64) int {
 		"known_findings_hit":  knownHit,
 		"unknown_violations":  unknown,
 		"budget_s":            budget,
+	}
+	if len(skippedHangs) > 0 {
+		cov["further_hang_signatures_not_confirmed"] = skippedHangs
 	}
 	var samples []interface{}
 	for _, s := range agg.samples {
